@@ -1119,18 +1119,20 @@ fn adjust_child_validity(
         }
     };
 
-    // Create new array with adjusted validity
-    arrow_array::make_array(
-        arrow_data::ArrayData::try_new(
-            child.data_type().clone(),
-            child.len(),
-            Some(new_validity.into_inner().into_inner()),
-            child.offset(),
-            child.to_data().buffers().to_vec(),
-            child.to_data().child_data().to_vec(),
-        )
-        .unwrap(),
-    )
+    // Create new array with adjusted validity.  The validity buffer has its own bit offset
+    // (the parent may be a slice), so hand it over as a NullBuffer instead of as raw bytes
+    // that would be re-read at the child's offset.
+    //
+    // SAFETY: only the validity changes and it has the length of the child.  (The checked
+    // `build` would reject a validity bitmap shorter than `offset + len` bits for a child
+    // with a data offset, e.g. a sliced BooleanArray.)
+    arrow_array::make_array(unsafe {
+        child
+            .to_data()
+            .into_builder()
+            .nulls(Some(new_validity))
+            .build_unchecked()
+    })
 }
 
 fn merge(left_struct_array: &StructArray, right_struct_array: &StructArray) -> StructArray {
@@ -1929,6 +1931,32 @@ mod tests {
         assert_eq!(width_values.value(0), 300);
         assert_eq!(width_values.value(1), 200);
         assert!(width_values.is_null(2)); // width is null when right struct was null
+    }
+
+    #[test]
+    fn test_merge_sliced_struct_with_validity() {
+        // The struct validity of a sliced batch has a non-zero bit offset
+        let validity: arrow_buffer::NullBuffer = vec![true, false, true].into();
+        let left_s = StructArray::new(
+            Fields::from(vec![Field::new("a", DataType::Int32, true)]),
+            vec![Arc::new(Int32Array::from(vec![1, 2, 3])) as ArrayRef],
+            Some(validity.clone()),
+        );
+        let right_s = StructArray::new(
+            Fields::from(vec![Field::new("b", DataType::Int32, true)]),
+            vec![Arc::new(Int32Array::from(vec![4, 5, 6])) as ArrayRef],
+            Some(validity),
+        );
+        let merged = merge(&left_s.slice(1, 2), &right_s.slice(1, 2));
+        assert!(merged.is_null(0));
+        assert!(merged.is_valid(1));
+        let a = merged.column_by_name("a").unwrap();
+        assert!(a.is_null(0));
+        assert!(a.is_valid(1));
+        assert_eq!(
+            a.as_primitive::<arrow_array::types::Int32Type>().value(1),
+            3
+        );
     }
 
     #[test]
